@@ -207,7 +207,11 @@ func SolveAll(units []*Unit, dir string, solvers []SolverCfg, workers int, all b
 			defer wg.Done()
 			for j := range ch {
 				script := j.u.Script(j.ob, j.pi)
-				r := Solve(script, dir, fmt.Sprintf("%04d_%d_%s", j.oi, j.pi, j.ob.Name), solvers, all)
+				sv := solvers
+				if j.ob.Expect == "sat" {
+					sv = DefaultSolvers(3) // vacuity covers only need a quick model
+				}
+				r := Solve(script, dir, fmt.Sprintf("%04d_%d_%s", j.oi, j.pi, j.ob.Name), sv, all && j.ob.Expect != "sat")
 				ok := r.Status == "unsat"
 				if j.ob.Expect == "sat" {
 					ok = r.Status == "sat"
